@@ -46,7 +46,21 @@ def span_residual(c, vecs, real_only=False):
     if nc == 0:
         return 0.0
     if real_only:
-        vecs = [np.real(v) for v in vecs if np.linalg.norm(np.imag(v)) == 0]
+        # real members, and the real direction r of members z*r that are a complex multiple of a real vector (what is
+        # left of a real right-hand side after removing its component along z*r is real again)
+        rv = []
+        for v in vecs:
+            re_, im_ = np.real(v), np.imag(v)
+            if np.linalg.norm(im_) == 0:
+                rv.append(re_)
+            elif np.linalg.norm(re_) == 0:
+                rv.append(im_)
+            else:
+                k_ = int(np.argmax(np.abs(v)))
+                r_ = v / v[k_]
+                if np.linalg.norm(np.imag(r_)) <= 1e-13 * np.linalg.norm(np.real(r_)):
+                    rv.append(np.real(r_) * abs(v[k_]))
+        vecs = rv
         if np.linalg.norm(np.imag(c)) != 0:
             return 1.0
         c = np.real(c)
